@@ -438,10 +438,11 @@ Fixpoint collect (fuel : nat) (f : bytes) (s : rstate) : outcome (list ritem) pe
 Inductive rerr := ZeroBuf.
 
 (* reverse(log, buf): buf is the caller's buffer with whatever it contains *)
+Definition init_state (f : bytes) (buf : bytes) : rstate := mkR buf 0 (Some (length f)) None.
 Definition reverse_init (f : bytes) (buf : bytes) : outcome rstate rerr :=
   match buf with
   | [] => Err ZeroBuf
-  | _ => Ok (mkR buf 0 (Some (length f)) None)
+  | _ => Ok (init_state f buf)
   end.
 
 (* enough for every file: each turn of [step] lowers 2*pos + end (see Proofs) *)
